@@ -1,6 +1,6 @@
 ID = 'C06'
 CUTS = [r'^_ZN5phosg13string_printfB5cxx11EPKcz$']
-UNITS = {'img': dict(wrap='wrap.cc', shim=True, new_block=64, cxxflags=['-U_FORTIFY_SOURCE', '-D_FORTIFY_SOURCE=0'], cuts=CUTS, gen_defs=['VERIF_EXC_POOL=4'])}
+UNITS = {'img': dict(wrap='wrap.cc', shim=True, new_block=128, cxxflags=['-U_FORTIFY_SOURCE', '-D_FORTIFY_SOURCE=0'], cuts=CUTS, gen_defs=['VERIF_EXC_POOL=4'])}
 BOUNDS = ''
 STUBS = []
 OUTSIDE = []
@@ -14,10 +14,25 @@ def queries(tier):
         n = W * H * (3 + A) + 2
         full = 14 + (124 if A else 40) + ((W * (3 + A) + 3) // 4 * 4) * H
         return dict(name='bmp_roundtrip_%dx%da%d' % (W, H, A), unit='img', harness='h_bmp_rt.c', defs={'W': W, 'H': H, 'ALPHA': A}, unwind=max(W * (3 + A) + 3, H + 2, 6),
-                    unwindset='in_bytes.0:%d,w_set_data.0:%d,verif_memset_loop.0:%d,X_fread.0:%d,X_fwrite.0:%d,verif_memcpy_loop.0:%d' % (n, n, n, 126, 126, 126), timeout=900, mem_gb=8, object_bits=12,
+                    unwindset='in_bytes.0:%d,w_set_data.0:%d,verif_memset_loop.0:%d,X_fread.0:%d,X_fwrite.0:%d,verif_memcpy_loop.0:%d' % (n, n, n, 142, 142, 142), timeout=900, mem_gb=8, object_bits=12,
                     flags=['--memory-leak-check', '--max-field-sensitivity-array-size', '256'],
                     desc='BMP save of a %dx%d image (alpha=%d): header fields/rows/padding per the format, independent decode of the checked pixel, load of every prefix length: io_error or identical' % (W, H, A),
                     bounds='image %dx%d, all pixel bytes, every truncation length 0..%d' % (W, H, full))
+    FLAGS = ['--memory-leak-check', '--max-field-sensitivity-array-size', '256']
+    def bmpvar(W, H, bpp, comp, topdown, hdr, gap=0):
+        full = 14 + hdr + 2 + ((W * bpp // 8 + 3) // 4 * 4) * H
+        return dict(name='bmp_variant_%dx%d_bpp%d_comp%d_td%d_hdr%d_gap%d' % (W, H, bpp, comp, topdown, hdr, gap), unit='img', harness='h_bmp_var.c',
+                    defs={'W': W, 'H': H, 'BPP': bpp, 'COMP': comp, 'TOPDOWN': topdown, 'HDR': hdr, 'GAP': gap}, unwind=max(W * 4 + 3, H + 2, 6),
+                    unwindset='harness.0:%d,harness.1:%d,harness.2:%d,harness.3:%d,X_fread.0:%d,verif_memcpy_loop.0:%d,verif_memset_loop.0:%d' % (full, full, full, full, 142, 142, 142), timeout=900, mem_gb=8, object_bits=12, flags=FLAGS,
+                    desc='BMP decode %d-bit %s %s, info header %d bytes, %dx%d: pixels per the format definition (symbolic mask permutation), data offset gap %d, every prefix length: io_error or identical' % (bpp, ('BI_RGB', '', '', 'BI_BITFIELDS')[comp], ('bottom-up', 'top-down')[topdown], hdr, W, H, gap),
+                    bounds='image %dx%d, all data bytes, all 24 mask permutations, every truncation length' % (W, H))
+    for A in (0, 1):
+        for HT in ([1, 3, 64] if tier == 'quick' else [1, 2, 3, 4, 5, 7, 8, 63, 64, 1000, 32768]):
+            qs.append(dict(name='bmp_header_a%d_h%d' % (A, HT), unit='img', harness='h_bmp_hdr.c', defs={'ALPHA': A, 'HT': HT}, unwind=4, unwindset='verif_memcpy_loop.0:142', timeout=600, mem_gb=6,
+                           desc='init_bmp_header for symbolic width in [1,32768], height %d, alpha=%d: every header field per the BMP specification' % (HT, A),
+                           bounds='width in [1,32768], height %d' % HT))
+    if tier == 'quick':
+        qs += [bmpvar(2, 2, 24, 0, 0, 40), bmpvar(3, 2, 24, 0, 1, 40), bmpvar(2, 2, 32, 0, 0, 40), bmpvar(2, 2, 32, 3, 0, 124, 2), bmpvar(1, 2, 32, 3, 1, 108)]
     if tier == 'quick':
         qs += [bmp(1, 2, 0), bmp(2, 2, 0), bmp(3, 2, 0), bmp(4, 2, 0), bmp(2, 2, 1), bmp(3, 1, 1)]
     return qs
